@@ -194,7 +194,7 @@ func c01Exec(x *engine.Ctx, cc any) {
 }
 
 var c01HistoryOps = []string{"delete-artifact", "replace-by-key-only", "strip-certificate", "edit-subject", "strip-key", "change-key-algorithm",
-	"key-replaced-by-request+edit-child", "strip-key+edit-child+changed-only-run", "strip-key+delete-child", "add-child"}
+	"key-replaced-by-request+edit-child", "strip-key+edit-child+changed-only-run", "strip-key+delete-child", "add-child", "move-under-the-other-root"}
 
 // c01History: the directory is not fresh - one entity's artifact or config was touched since the
 // last run. After the next successful default run every certificate must again verify under the
@@ -214,6 +214,8 @@ func c01History(x *engine.Ctx, c *c01Case) {
 		}
 		d.Certs = append(d.Certs, cfg)
 	}
+	// a second root that nothing hangs under yet: the target of a re-parenting edit
+	d.Certs = append(d.Certs, &refcfg.CertCfg{Path: "other.yaml", Subject: "CN=other root", KeyAlg: "P-256", Profile: prof})
 	g := Generate(d, nil, drive.Default)
 	if !g.Res.OK() {
 		x.Violation("C01/run-failed/history", fmt.Sprint(g.Res.Err()))
@@ -287,6 +289,14 @@ func c01ApplyOp(d *Dir, w *simfs.World, names []string, op, ent int) (ok bool, s
 	}
 	if name == "edit-subject" {
 		cfg.Subject += " renamed"
+		w.Put(cfg.Path, cfg.YAML())
+		return true, 0
+	}
+	if name == "move-under-the-other-root" {
+		if cfg.Issuer == "other" || AliasOf(cfg) == "other" {
+			return false, 0
+		}
+		cfg.Issuer = "other" // also turns the root into a subordinate
 		w.Put(cfg.Path, cfg.YAML())
 		return true, 0
 	}
@@ -640,7 +650,7 @@ func init() {
 	register(&engine.Check{
 		ID:          "C01",
 		Level:       "exploration",
-		Rule:        "(a) every rooted forest on <=3 (quick) / <=4 (thorough) entities x 3 alias/directory layouts x with/without a profile adding subjectKeyIdentifier+authorityKeyIdentifier hash; (b) issuer key algorithm (14) x subject key algorithm (6 representatives quick / 14 thorough) x signature algorithm (8 + omitted) two-tier worlds with fixture keys, the 14 x 9 self-signed roots, and a three-tier chain per issuer kind x 9; (c) 60 one-operation histories (each also with a write error at the 1st/2nd/3rd write of the following run, after which a run that reports success must still leave a verifying chain) and all 1800 ordered two-operation histories on a settled 3-tier chain (add a child under the entity / delete artifact / replace by an old key-only file / strip certificate / edit subject / strip key / change key algorithm / issuer key replaced by a request + child edited / issuer key stripped + child edited + generate-changed only / issuer key stripped + child artifact deleted, on each entity, with and without key-id profile) followed by a default run, after which every certificate must verify under its issuer's current certificate; (d) issuer artifact origin {earlier gopki run, foreign certificate with PrintableString / UTF8String non-ASCII / UTF8String for a printable value / IA5String e-mail / multi-valued RDN / TeletexString / PrintableString with & or * / BMPString / NumericString / empty value / mixed string types in one RDN}. Oracle per written certificate: signature verifies with the algorithm its signatureAlgorithm names under the SPKI of the issuer's current certificate file, issuer DN bytes = that certificate's subject DN bytes, hash key ids = SHA-1 of the respective key bits, child AKI = issuer SKI; misfit of algorithm and signing key => run fails and no certificate. non-trivial = distinct case executed",
+		Rule:        "(a) every rooted forest on <=3 (quick) / <=4 (thorough) entities x 3 alias/directory layouts x with/without a profile adding subjectKeyIdentifier+authorityKeyIdentifier hash; (b) issuer key algorithm (14) x subject key algorithm (6 representatives quick / 14 thorough) x signature algorithm (8 + omitted) two-tier worlds with fixture keys, the 14 x 9 self-signed roots, and a three-tier chain per issuer kind x 9; (c) 66 one-operation histories (each also with a write error at the 1st/2nd/3rd write of the following run, after which a run that reports success must still leave a verifying chain) and all 2178 ordered two-operation histories on a settled 3-tier chain next to a second root (add a child under the entity / move the entity under the other root / delete artifact / replace by an old key-only file / strip certificate / edit subject / strip key / change key algorithm / issuer key replaced by a request + child edited / issuer key stripped + child edited + generate-changed only / issuer key stripped + child artifact deleted, on each entity, with and without key-id profile) followed by a default run, after which every certificate must verify under its issuer's current certificate; (d) issuer artifact origin {earlier gopki run, foreign certificate with PrintableString / UTF8String non-ASCII / UTF8String for a printable value / IA5String e-mail / multi-valued RDN / TeletexString / PrintableString with & or * / BMPString / NumericString / empty value / mixed string types in one RDN}. Oracle per written certificate: signature verifies with the algorithm its signatureAlgorithm names under the SPKI of the issuer's current certificate file, issuer DN bytes = that certificate's subject DN bytes, hash key ids = SHA-1 of the respective key bits, child AKI = issuer SKI; misfit of algorithm and signing key => run fails and no certificate. non-trivial = distinct case executed",
 		Bound:       map[string]string{"forest size": "quick<=3 thorough<=4"},
 		Assumptions: []string{"configurations with manipulations are C19's", "Go's crypto/ecdsa, crypto/rsa and the keybase brainpool curve parameters are trusted for verification"},
 		Budget:      budgets(quickBudget, thoroughBudget),
